@@ -165,6 +165,29 @@ def replay_case(col, item):
             except Exception as ex:
                 col.violation("query-raises-" + type(ex).__name__, {"abstract": {"N": N, "B": B, "Q": Q, "k": k}, "concrete": conf,
                                                                     "observed": repr(ex)[:200]})
+        # ONE radius value that sits mid-gap for both metrics (between arc(k) and chord(k+1)), handed to an index of each
+        # metric in the same process, chord first or arc first: each index converts it for itself
+        if ring.arc_km(k, N) < ring.chord_km(k + 1, N) and k + 1 <= N // 2:
+            from typhon.geographical import GeoIndex
+            r_common = (ring.arc_km(k, N) + ring.chord_km(k + 1, N)) / 2
+            lat, lon = ring.latlon(EMB["tilted"], B)
+            qlat, qlon = ring.latlon(EMB["tilted"], Q)
+            order = ("minkowski", "haversine") if (len(B) + k) % 2 else ("haversine", "minkowski")
+            for spelled in (r_common, "%r km" % r_common):
+                for metric in order:
+                    conf = {"embedding": "tilted", "metric": metric, "same_radius_value_for_both_metrics": spelled, "order": list(order)}
+                    try:
+                        with ForcedShuffle(perms[0]):
+                            idx = GeoIndex(lat, lon, metric=metric)
+                        pairs, dist = idx.query(qlat, qlon, spelled)
+                        pairs = np.asarray(pairs)
+                        got = ([], [], 1) if pairs.size == 0 else ([(int(a) + 1, int(b) + 1) for a, b in zip(pairs[0], pairs[1])],
+                                                                   [ring.classify(float(x), N, metric) for x in dist], 1)
+                        col.count(1)
+                        check_result(col, case, k, exp, got, conf)
+                    except Exception as ex:
+                        col.violation("query-raises-" + type(ex).__name__, {"abstract": {"N": N, "B": B, "Q": Q, "k": k}, "concrete": conf,
+                                                                            "observed": repr(ex)[:200]})
         # whole-degree coordinates passed as INTEGER arrays (equator embedding: lat 0, lon multiples of 45)
         for metric in ("minkowski", "haversine"):
             if metric == "haversine" and k >= N // 2:
